@@ -1640,7 +1640,7 @@ class CParser:
     # BNF: statement : labeled_statement | compound_statement
     #                | selection_statement | iteration_statement
     #                | jump_statement | expression_statement
-    #                | static_assert | pppragma_directive
+    #                | pppragma_directive
     def _parse_statement(self) -> c_ast.Node | List[c_ast.Node]:
         tok_type = self._peek_type()
         match tok_type:
@@ -1658,8 +1658,6 @@ class CParser:
                 return self._parse_jump_statement()
             case "PPPRAGMA" | "_PRAGMA":
                 return self._parse_pppragma_directive()
-            case "_STATIC_ASSERT":
-                return self._parse_static_assert()
             case _:
                 return self._parse_expression_statement()
 
@@ -1679,6 +1677,11 @@ class CParser:
             return self._parse_statement()
         if self._starts_declaration():
             return self._parse_declaration()
+        if self._peek_type() == "_STATIC_ASSERT":
+            # a declaration (C11 6.7), so a block item but not a statement:
+            # it cannot be the body of an if or a loop, and after a label it
+            # is the next block item, like any other declaration
+            return self._parse_static_assert()
         return self._parse_statement()
 
     # BNF: block_item_list : block_item+
@@ -2424,7 +2427,6 @@ _STARTS_STATEMENT = {
     "DEFAULT",
     "PPPRAGMA",
     "_PRAGMA",
-    "_STATIC_ASSERT",
     "SEMI",
 }
 
